@@ -1,4 +1,315 @@
-/- Model for area `batch` (stub). -/
+/-
+  Model of the relayer's batching (property C12):
+
+  * `crates/astria-sequencer-relayer/src/relayer/write/conversion.rs`
+      `Input::extend_from_sequencer_block` (rollup filter), `Input::try_into_payload`,
+      `NextSubmission::{try_add, take}` / `TakeSubmission::poll`, `Submission`;
+  * `crates/astria-sequencer-relayer/src/relayer/write/mod.rs`
+      the three data arms of `BlobSubmitter::run` (`recv`, `take` + `pending_block`
+      hand-over, completion of the in-flight submission) and
+      `add_sequencer_block_to_next_submission` / `has_capacity`;
+  * the decode side of `crates/astria-conductor/src/celestia/convert.rs`
+      (select blobs by namespace, concatenate the entries of the decoded lists).
+
+  What is data here and what is a parameter:
+  * a `SequencerBlock` is already given in its split form (`split_for_celestia`): one
+    metadata entry and the list of per-rollup entries in the block's order. The content of
+    an entry (hashes, header, transactions, proofs) is an opaque `digest`;
+  * protobuf + brotli are NOT modelled: a blob is its namespace and its list of entries;
+    the compressed size of a payload is an ARBITRARY function `csize` of the blob list
+    (`none` = compression / blob construction failed). Nothing is assumed about it, the
+    code only ever compares the candidate's size with the limit;
+  * the namespace of a rollup is an arbitrary function `ns` of the rollup id (the code
+    takes the first 10 bytes, so it is not injective), the rollup filter an arbitrary list.
+-/
 namespace Astria.Relayer
+
+/-- `SubmittedMetadata` (raw). `chainNs` = `sequencer_namespace(metadata)`, a function of
+    `header.chain_id`; `digest` stands for everything else. -/
+structure Meta where
+  height : Nat
+  chainNs : String
+  digest : String
+  deriving DecidableEq, Repr, Inhabited
+
+/-- `SubmittedRollupData` (raw): rollup id and an opaque digest of
+    (sequencer block hash, transactions, proof). -/
+structure RData where
+  rollup : String
+  digest : String
+  deriving DecidableEq, Repr, Inhabited
+
+/-- A sequencer block as `split_for_celestia` presents it. -/
+structure Block where
+  md : Meta
+  rollups : List RData
+  deriving DecidableEq, Repr, Inhabited
+
+def Block.height (b : Block) : Nat := b.md.height
+
+inductive Body where
+  | metaList (es : List Meta)        -- SubmittedMetadataList
+  | rollupList (es : List RData)     -- SubmittedRollupDataList
+  deriving DecidableEq, Repr
+
+structure Blob where
+  ns : String
+  body : Body
+  deriving DecidableEq, Repr
+
+structure Cfg where
+  /-- `IncludeRollup`: empty = include every rollup -/
+  filter : List String
+  /-- `namespace_v0_from_rollup_id` -/
+  ns : String → String
+  /-- compressed size of a payload (sum of the brotli-compressed blob sizes); `none` = error -/
+  csize : List Blob → Option Nat
+  /-- `MAX_PAYLOAD_SIZE_BYTES` -/
+  max : Nat
+
+/-- `IncludeRollup::should_include`. -/
+def shouldInclude (filter : List String) (r : String) : Bool :=
+  filter.isEmpty || filter.contains r
+
+/-- `BTreeSet::insert`. -/
+def insertSorted (h : Nat) : List Nat → List Nat
+  | [] => [h]
+  | x :: xs => if h < x then h :: x :: xs else if h = x then x :: xs else x :: insertSorted h xs
+
+/-- `rollup_data_for_namespace.entry(namespace).or_default().push(elem)` on an association
+    list in insertion order. -/
+def pushData (n : String) (e : RData) : List (String × List RData) → List (String × List RData)
+  | [] => [(n, [e])]
+  | (k, es) :: rest => if k = n then (k, es ++ [e]) :: rest else (k, es) :: pushData n e rest
+
+/-- `HashMap::insert` (insert or overwrite). -/
+def insertKV (k v : String) : List (String × String) → List (String × String)
+  | [] => [(k, v)]
+  | (k', v') :: rest => if k' = k then (k', v) :: rest else (k', v') :: insertKV k v rest
+
+/-- `HashSet::insert`. -/
+def insertSet (k : String) (l : List String) : List String := if l.contains k then l else l ++ [k]
+
+/-- `Input` with its `InputMeta`. -/
+structure Input where
+  metadata : List Meta := []
+  rollupData : List (String × List RData) := []
+  heights : List Nat := []
+  seqNs : Option String := none
+  included : List (String × String) := []
+  excluded : List String := []
+  deriving DecidableEq, Repr
+
+def Input.numBlocks (i : Input) : Nat := i.metadata.length
+
+/-- body of the `for elem in rollup_data` loop -/
+def Input.addRollup (cfg : Cfg) (i : Input) (e : RData) : Input :=
+  if shouldInclude cfg.filter e.rollup then
+    { i with included := insertKV e.rollup (cfg.ns e.rollup) i.included,
+             rollupData := pushData (cfg.ns e.rollup) e i.rollupData }
+  else
+    { i with excluded := insertSet e.rollup i.excluded }
+
+/-- `Input::extend_from_sequencer_block`. -/
+def Input.extend (cfg : Cfg) (i : Input) (b : Block) : Input :=
+  let i1 : Input :=
+    { i with heights := insertSorted b.height i.heights,
+             seqNs := some (i.seqNs.getD b.md.chainNs),
+             metadata := i.metadata ++ [b.md] }
+  b.rollups.foldl (Input.addRollup cfg) i1
+
+/-- `Input::greatest_sequencer_height` (`BTreeSet::last`). -/
+def Input.greatest (i : Input) : Option Nat := i.heights.getLast?
+
+structure Payload where
+  size : Nat := 0
+  blobs : List Blob := []
+  deriving DecidableEq, Repr
+
+inductive PayloadErr where
+  | noSeqNs         -- TryIntoPayloadError::NoSequencerNamespacePresent
+  | addToPayload    -- TryIntoPayloadError::AddToPayload (compression / blob construction)
+  deriving DecidableEq, Repr
+
+/-- The blobs `try_into_payload` builds: the metadata list under the sequencer namespace,
+    then one rollup-data list per namespace. -/
+def Input.blobs (i : Input) (s : String) : List Blob :=
+  ⟨s, .metaList i.metadata⟩ :: i.rollupData.map (fun p => ⟨p.1, .rollupList p.2⟩)
+
+/-- `Input::try_into_payload`. -/
+def Input.tryIntoPayload (cfg : Cfg) (i : Input) : Except PayloadErr Payload :=
+  match i.seqNs with
+  | none => .error .noSeqNs
+  | some s =>
+    match cfg.csize (i.blobs s) with
+    | none => .error .addToPayload
+    | some n => .ok ⟨n, i.blobs s⟩
+
+/-- `NextSubmission` (filter and limit live in `Cfg`). -/
+structure Next where
+  input : Input := {}
+  payload : Payload := {}
+  deriving DecidableEq, Repr
+
+inductive AddRes where
+  | ok
+  | full (b : Block)                        -- TryAddError::Full(block)
+  | oversized (height size : Nat)           -- TryAddError::OversizedBlock
+  | intoPayload (e : PayloadErr)            -- TryAddError::IntoPayload
+  deriving DecidableEq, Repr
+
+/-- `NextSubmission::try_add`. -/
+def Next.tryAdd (cfg : Cfg) (s : Next) (b : Block) : Next × AddRes :=
+  let cand := s.input.extend cfg b
+  match cand.tryIntoPayload cfg with
+  | .error e => (s, .intoPayload e)
+  | .ok p =>
+    if p.size ≤ cfg.max then (⟨cand, p⟩, .ok)
+    else if cand.numBlocks = 1 then (s, .oversized b.height p.size)
+    else (s, .full b)
+
+structure Submission where
+  input : Input
+  payload : Payload
+  deriving DecidableEq, Repr
+
+/-- `Submission::greatest_sequencer_height` (panics on an empty input; 0 here, shown
+    unreachable by `Inv`). -/
+def Submission.greatest (s : Submission) : Nat := s.input.greatest.getD 0
+
+/-- `TakeSubmission::poll`: both fields are moved out; `None` iff the payload has no blobs. -/
+def Next.take (s : Next) : Next × Option Submission :=
+  if s.payload.blobs.isEmpty then ({}, none) else ({}, some ⟨s.input, s.payload⟩)
+
+/-! ### the run loop of `BlobSubmitter` -/
+
+structure Sub where
+  next : Next := {}
+  /-- `pending_block` -/
+  pending : Option Block := none
+  /-- `started_submission.last_submission_sequencer_height()` -/
+  last : Nat := 0
+  /-- greatest height of the submission in flight (`ongoing_submission` not terminated) -/
+  inflight : Option Nat := none
+  /-- the loop broke with a critical error -/
+  failed : Bool := false
+  deriving DecidableEq, Repr
+
+inductive Op where
+  | recv (b : Block)      -- a block is available on the channel
+  | take                  -- the `take` arm is polled
+  | done                  -- the in-flight submission completes successfully
+  deriving Repr
+
+inductive Out where
+  | stopped                                   -- loop already exited
+  | blocked                                   -- `has_capacity()` is false: arm disabled, block stays in the channel
+  | skipped                                   -- height ≤ last submitted height
+  | add (r : AddRes)                          -- result of `add_sequencer_block_to_next_submission`
+  | busy                                      -- a submission is in flight: arm disabled
+  | nothing                                   -- `take()` yielded `None`
+  | submitted (s : Submission) (handover : Option AddRes)
+  | idle                                      -- nothing in flight
+  | completed                                 -- `started_submission` advanced
+  | submitFailed                              -- `into_prepared` refuses a height ≤ the last submitted one
+  deriving Repr
+
+/-- `add_sequencer_block_to_next_submission`. -/
+def Sub.addBlock (cfg : Cfg) (s : Sub) (b : Block) : Sub × AddRes :=
+  match s.next.tryAdd cfg b with
+  | (n, .ok) => ({ s with next := n }, .ok)
+  | (n, .full b') => ({ s with next := n, pending := some b' }, .full b')
+  | (n, r) => ({ s with next := n, failed := true }, r)
+
+def Sub.step (cfg : Cfg) (s : Sub) : Op → Sub × Out
+  | .recv b =>
+    if s.failed then (s, .stopped)
+    else if s.pending.isSome then (s, .blocked)
+    else if b.height ≤ s.last then (s, .skipped)
+    else
+      let ar := s.addBlock cfg b
+      (ar.1, .add ar.2)
+  | .take =>
+    if s.failed then (s, .stopped)
+    else if s.inflight.isSome then (s, .busy)
+    else
+      match s.next.take with
+      | (n, none) => ({ s with next := n }, .nothing)
+      | (n, some sub) =>
+        let s1 := { s with next := n, inflight := some sub.greatest }
+        match s.pending with
+        | none => (s1, .submitted sub none)
+        | some b =>
+          let ar := ({ s1 with pending := none }).addBlock cfg b
+          (ar.1, .submitted sub (some ar.2))
+  | .done =>
+    if s.failed then (s, .stopped)
+    else
+      match s.inflight with
+      | none => (s, .idle)
+      | some h =>
+        if h > s.last then ({ s with last := h, inflight := none }, .completed)
+        else ({ s with inflight := none, failed := true }, .submitFailed)
+
+def AddRes.isFatal : AddRes → Bool
+  | .ok => false
+  | .full _ => false
+  | _ => true
+
+/-- State plus the observable history (ghost fields). -/
+structure Run where
+  s : Sub := {}
+  /-- blocks handed to `try_add` and not refused with a hard error, in order -/
+  accepted : List Block := []
+  /-- blocks skipped because their height was already submitted -/
+  skipped : List Block := []
+  /-- the block (if any) whose first `try_add` ended the loop with a hard error -/
+  fatal : List Block := []
+  /-- the pending block (if any) whose re-`try_add` after a take ended the loop with a hard error -/
+  lost : List Block := []
+  /-- submissions produced by `take`, in order -/
+  emitted : List Submission := []
+  deriving Repr
+
+def handoverLost (pending : Option Block) : Option AddRes → List Block
+  | some res => if res.isFatal then pending.toList else []
+  | none => []
+
+def Run.step (cfg : Cfg) (r : Run) (op : Op) : Run :=
+  let so := r.s.step cfg op
+  let r' := { r with s := so.1 }
+  match op, so.2 with
+  | .recv b, .add res =>
+    if res.isFatal then { r' with fatal := r.fatal ++ [b] } else { r' with accepted := r.accepted ++ [b] }
+  | .recv b, .skipped => { r' with skipped := r.skipped ++ [b] }
+  | _, .submitted sub ho =>
+    { r' with emitted := r.emitted ++ [sub], lost := r.lost ++ handoverLost r.s.pending ho }
+  | _, _ => r'
+
+def Run.init (last : Nat) : Run := { s := { last := last } }
+
+def run (cfg : Cfg) (last : Nat) (ops : List Op) : Run := ops.foldl (Run.step cfg) (Run.init last)
+
+/-! ### conductor-style decoding (`convert.rs`) -/
+
+/-- entries of every metadata-list blob under namespace `n` (`decode_raw_blobs`, header part) -/
+def decodeMeta (n : String) (blobs : List Blob) : List Meta :=
+  blobs.flatMap (fun b => match b.body with
+    | .metaList es => if b.ns = n then es else []
+    | .rollupList _ => [])
+
+/-- entries of every rollup-data-list blob under namespace `n` -/
+def decodeRollup (n : String) (blobs : List Blob) : List RData :=
+  blobs.flatMap (fun b => match b.body with
+    | .rollupList es => if b.ns = n then es else []
+    | .metaList _ => [])
+
+/-- the entries stored for namespace `n` -/
+def dataFor (n : String) (l : List (String × List RData)) : List RData :=
+  l.flatMap (fun p => if p.1 = n then p.2 else [])
+
+/-- what a block contributes to namespace `n` under the filter -/
+def blockData (cfg : Cfg) (n : String) (b : Block) : List RData :=
+  b.rollups.filter (fun e => shouldInclude cfg.filter e.rollup && decide (cfg.ns e.rollup = n))
 
 end Astria.Relayer
